@@ -21,7 +21,7 @@ PORTS = [None, 80, 443, 81, 0]
 PATHS = ["", "/", "/a", "/A", "/a/", "/a%2Fb", "/a%2fb", "/a b", "/a/../b"]
 QUERIES = ["", "q", "q=1", "q=1&r", "Q", "a+b", "a%20b"]
 FRAGS = ["", "f", "F", "f%20"]
-ROUTES = ["str", "enc", "build", "pickle", "restore", "restore-hashed", "with_path", "origin-join"]
+ROUTES = ["str", "enc", "build", "pickle", "restore", "restore-hashed", "with_path", "origin-join", "build-enc", "build-enc-split", "split", "pickled-original"]
 
 
 def spec():
@@ -97,6 +97,22 @@ def make(Y, sp):
         hash(d), d == c
         # the last step is a query operation on a hashed parent: its result must not inherit the parent's memoised hash
         return d.with_query(u.query)
+    if r in ("build-enc", "build-enc-split", "split"):
+        # verbatim construction: a '?' / '#' may sit inside the path or the query (build-enc), or the same text is split at it (build-enc-split)
+        u0 = URL(s)
+        path = u0.raw_path if sp["path"] else ""
+        q = u0.raw_query_string
+        if r == "build-enc" and q:
+            path, q = path + "?" + q, ""
+        if r == "split":
+            from urllib.parse import SplitResult
+            return URL(SplitResult(u0.scheme, u0.raw_authority, path, q, u0.raw_fragment), encoded=True)
+        return URL.build(scheme=u0.scheme, authority=u0.raw_authority, path=path, query_string=q, fragment=u0.raw_fragment, encoded=True)
+    if r == "pickled-original":
+        import copy
+        u = URL(s) if sp["ui"] is None else URL(str(URL(s)), encoded=True)
+        pickle.dumps(u), copy.copy(u), copy.deepcopy(u), u.__getstate__()
+        return u
     if r == "with_path":
         u = URL(s)
         return u.with_path(u.path, keep_query=True, keep_fragment=True) if u.raw_path != "/" else u
